@@ -26,6 +26,11 @@ pub fn check_area(run: &mut Run, c: MCell, class: &str) -> Option<f64> {
     run.evaluations += 1;
     let id = encode(c);
     let case = || json!({"cell": hu(id), "res": c.res, "class": class});
+    // for a quarter of the cells the same cell is first asked for with other options (the answer must depend on all arguments)
+    if (id >> 3) % 4 == 1 {
+        let _ = guard(|| a5::cell_to_boundary(id, Some(a5::core::cell::CellToBoundaryOptions { closed_ring: false, segments: Some(1) })));
+        run.count("cells_first_asked_for_with_other_options");
+    }
     let ring = match ring_units(id, 64) {
         Ok(r) => r,
         Err(e) => {
